@@ -63,7 +63,7 @@ Holes(e) == CASE e.k = "hole" -> 1
 ProbeResults == { [r |-> "v", v |-> VBool(TRUE)], [r |-> "v", v |-> VBool(FALSE)], [r |-> "v", v |-> VNone],
                   [r |-> "v", v |-> I(7)], [r |-> "fail", msg |-> S("boom")] }
 
-Env == [input |-> VMap(<< <<S("a"), I(1)>> >>), syms |-> <<>>,
+Env == [input |-> VMap(<< <<S("a"), I(1)>> >>), syms |-> <<>>, ev |-> 1,
         funcs |-> [i \in 1..Len(res) |-> [name |-> PName(i), cacheable |-> FALSE, suspend |-> 0, script |-> <<res[i]>>]]
                   \o << [name |-> S("q"), cacheable |-> FALSE, suspend |-> 0, script |-> <<[r |-> "echo"]>>] >>]
 
